@@ -65,7 +65,7 @@ def debug_sig(t: Any, size: int = 3) -> str:
     if not t:
         return "0"
     th = xxhash.xxh64()
-    th.update(str(t))
+    th.update(str(t).encode("utf8"))
     return b64encode(th.digest()).decode("utf8")[0:size]
 
 
